@@ -2,6 +2,7 @@ package checks
 
 import (
 	"bytes"
+	"compress/gzip"
 	"context"
 	"errors"
 	"fmt"
@@ -448,6 +449,9 @@ func c09Hostile(run *ev.Run) {
 	if !run.Replaying() || strings.Contains(run.ReplayKey(), "/declared-exact/") {
 		c09DeclaredExact(run)
 	}
+	if !run.Replaying() || strings.Contains(run.ReplayKey(), "/shared-compression-option/") {
+		c09SharedCompressionOption(run)
+	}
 	// A declared Content-Length that has nothing to do with the (small, valid)
 	// body must not size anything: with a read limit N the receiver stays under
 	// the same allocation bound, and it never panics.
@@ -733,6 +737,108 @@ func c09DeclaredExact(run *ev.Run) {
 							run.Violation(key+"/accepted", fmt.Sprintf("a %d-byte message was not rejected (invalid_argument or resource_exhausted) under a read limit of %d", len(raw), N), detail)
 						}
 					}
+				}
+			}
+		}
+	}
+}
+
+// c09SharedCompressionOption: one WithCompression option value (and with it one
+// pool of compressors and decompressors) configures several handlers, each with
+// its own read limit - a service with a small limit next to an upload service
+// with a large one. Calls alternate between them on one P (every Get sees what
+// the previous call Put): each handler enforces its own N, whatever the pooled
+// objects did for the other handler before.
+func c09SharedCompressionOption(run *ev.Run) {
+	old := runtime.GOMAXPROCS(1)
+	defer runtime.GOMAXPROCS(old)
+	mkOpt := func() connect.HandlerOption {
+		return connect.WithCompression("gzip",
+			func() connect.Decompressor { return &gzip.Reader{} },
+			func() connect.Compressor { return gzip.NewWriter(io.Discard) })
+	}
+	call := func(hs map[svc.Kind]*connect.Handler, reg *svc.Registry, protocol string, kind svc.Kind, raw []byte) (received int, derr *refcodec.WireError, alloc uint64, crashed any) {
+		gz := refcodec.GzipCompress(raw)
+		stream := !(protocol == "connect" && kind == svc.Unary)
+		hdr := http.Header{"Content-Type": {contentType(protocol, "proto", kind)}}
+		body := gz
+		switch {
+		case !stream:
+			hdr.Set("Content-Encoding", "gzip")
+		case protocol == "connect":
+			hdr.Set("Connect-Content-Encoding", "gzip")
+			body = refcodec.AppendFrame(nil, 1, gz)
+		default:
+			hdr.Set("Grpc-Encoding", "gzip")
+			hdr.Set("Te", "trailers")
+			body = refcodec.AppendFrame(nil, 1, gz)
+		}
+		c := reg.New("sco", drainProgram())
+		defer reg.Drop(c)
+		hdr.Set(wire.CallHeader, c.ID)
+		rw := wire.NewRecorder()
+		req := wire.ServerRequest(context.Background(), "POST", kind.Path(), hdr, &wire.ScriptedBody{Data: body}, 2)
+		func() {
+			defer func() { crashed = recover() }()
+			alloc = measureAlloc(func() { hs[kind].ServeHTTP(rw, req) })
+		}()
+		if crashed != nil {
+			return 0, nil, alloc, crashed
+		}
+		res := rw.Finish()
+		d := refcodec.DecodeResponse(protocol, stream, res.Status, res.Header, res.Body, res.Trailer, svc.RefAlgos())
+		return len(c.Log.Received), d.Err, alloc, nil
+	}
+	enc := func(size int) []byte {
+		b, _ := proto.Marshal(gen.New(uint64(7000+size), size, true))
+		return b
+	}
+	for _, protocol := range svc.Protocols {
+		for _, kind := range []svc.Kind{svc.Unary, svc.ClientStream} {
+			key := fmt.Sprintf("c09/shared-compression-option/%s/%s", protocol, kind)
+			if !run.Want(key) {
+				continue
+			}
+			opt := mkOpt()
+			regS, regB, regH := svc.NewRegistry(), svc.NewRegistry(), svc.NewRegistry()
+			const small, big, huge = 64, 4096, 256 << 20
+			hsS := svc.Handlers(regS, opt, connect.WithReadMaxBytes(small), connect.WithCompressMinBytes(1<<30))
+			hsB := svc.Handlers(regB, opt, connect.WithReadMaxBytes(big), connect.WithCompressMinBytes(1<<30))
+			hsH := svc.Handlers(regH, opt, connect.WithReadMaxBytes(huge), connect.WithCompressMinBytes(1<<30))
+			detail := map[string]any{"protocol": protocol, "kind": kind.String(), "limits": []int{small, big, huge}}
+			bad := func(suffix, what string) {
+				run.Violation(key+"/"+suffix, what, detail)
+			}
+			for round := 0; round < 3; round++ {
+				run.Eval(fmt.Sprintf("shared-compression-option|%s|%s|round=%d", protocol, kind, round))
+				run.Count("limit.shared_option_rounds", 1)
+				// small-limit handler first ...
+				for i := 0; i < 3; i++ {
+					if n, e, _, cr := call(hsS, regS, protocol, kind, enc(20)); cr != nil || n != 1 || e != nil {
+						bad("small-within", fmt.Sprintf("a message within the small handler's limit (%d) was not accepted: received %d, error %v, panic %v", small, n, e, cr))
+					}
+				}
+				// ... then an ordinary message within the big handler's limit
+				if n, e, _, cr := call(hsB, regB, protocol, kind, enc(1000)); cr != nil || n != 1 || e != nil {
+					bad("big-within", fmt.Sprintf("after calls on a sibling handler with limit %d (same WithCompression value), a message of about 1000 bytes was not accepted by the handler with limit %d: received %d, error %v, panic %v", small, big, n, e, cr))
+				}
+				if n, e, _, cr := call(hsB, regB, protocol, kind, enc(big+500)); cr != nil || n != 0 || e == nil {
+					bad("big-over", fmt.Sprintf("a message above the big handler's limit (%d) was not rejected: received %d, error %v, panic %v", big, n, e, cr))
+				}
+				// ... and back: above the small limit, within the big one
+				if n, e, _, cr := call(hsS, regS, protocol, kind, enc(1000)); cr != nil || n != 0 || e == nil {
+					bad("small-over", fmt.Sprintf("after calls on a sibling handler with limit %d, a message of about 1000 bytes was not rejected by the handler with limit %d: received %d, error %v, panic %v", big, small, n, e, cr))
+				}
+				// a handler with a very large limit, then a bomb for the one with 4 KiB
+				if n, e, _, cr := call(hsH, regH, protocol, kind, enc(100)); cr != nil || n != 1 || e != nil {
+					bad("huge-within", fmt.Sprintf("small message not accepted by the handler with limit %d: received %d, error %v, panic %v", huge, n, e, cr))
+				}
+				n, e, alloc, cr := call(hsB, regB, protocol, kind, make([]byte, 32<<20))
+				detail["bomb_allocated"] = alloc
+				if cr != nil || n != 0 || e == nil {
+					bad("bomb-accepted", fmt.Sprintf("a 32 MiB message (well compressed) was not rejected under a limit of %d: received %d, error %v, panic %v", big, n, e, cr))
+				} else if alloc > 16*big+3<<20 {
+					bad("bomb-allocation", fmt.Sprintf("rejecting a 32 MiB bomb under a limit of %d allocated %d bytes after a sibling handler with limit %d had used the shared pool", big, alloc, huge))
 				}
 			}
 		}
